@@ -289,7 +289,8 @@ pub fn run(tier: Tier) -> Result<Report, String> {
     let mut programs = progen::programs(n, cap);
     let flat = programs.len();
     let ctx_nodes = if thorough { 3 } else { 2 };
-    programs.extend(progen::in_contexts(ctx_nodes, if thorough { 3_000_000 } else { 60_000 }));
+    let (ctx_programs, ctx_capped) = progen::in_contexts(ctx_nodes, if thorough { 6_000_000 } else { 200_000 });
+    programs.extend(ctx_programs);
     let in_ctx = programs.len() - flat;
     let before_typed = programs.len();
     programs.extend(crate::c01::typed_programs(thorough));
@@ -362,7 +363,7 @@ pub fn run(tier: Tier) -> Result<Report, String> {
         "agreeing_runtime_errors": acc.errors_agreed,
         "not_judged": {"reference_abstained": acc.abstained, "instruction_budget": acc.budget, "needs_process_runtime": acc.needs_runtime},
         "disagreements_before_shrinking": acc.violations.len(),
-        "caps_hit": {"wall_budget_exhausted": budget.exhausted(), "programs_not_reached": total as u64 - covered},
+        "caps_hit": {"wall_budget_exhausted": budget.exhausted(), "programs_not_reached": total as u64 - covered, "context_products_capped": ctx_capped},
         "samples": acc.samples,
     });
     Ok(Report {
